@@ -949,15 +949,20 @@ func (fc *funcContext) makeReceiver(e *ast.SelectorExpr) *expression {
 	x := e.X
 	recvType := sel.Recv()
 	if len(sel.Index()) > 1 {
+		// The name of the synthetic selector identifies the embedded field: it is
+		// used to cache the pointer to that field on the outer object, and two
+		// different embedded fields must not share a cache slot.
+		fieldPath := "o"
 		for _, index := range sel.Index()[:len(sel.Index())-1] {
 			if ptr, isPtr := recvType.(*types.Pointer); isPtr {
 				recvType = ptr.Elem()
 			}
 			s := recvType.Underlying().(*types.Struct)
+			fieldPath += "$" + s.Field(index).Name()
 			recvType = fc.fieldType(s, index)
 		}
 
-		fakeSel := &ast.SelectorExpr{X: x, Sel: ast.NewIdent("o")}
+		fakeSel := &ast.SelectorExpr{X: x, Sel: ast.NewIdent(fieldPath)}
 		fc.pkgCtx.additionalSelections[fakeSel] = typesutil.NewSelection(types.FieldVal, sel.Recv(), sel.Index()[:len(sel.Index())-1], nil, recvType)
 		x = fc.setType(fakeSel, recvType)
 	}
